@@ -17,7 +17,7 @@ import cirq
 
 from mc import core
 from mc.core import CaseStage, Res, bad, good
-from mc.choices import explore
+from mc.choices import explore, Chooser
 from mc.scripted_random import ScriptedRandomState
 from mc.ref import interp, embed as E
 
@@ -374,6 +374,83 @@ def run_direct(case):
     return Res(ok=True, nontrivial=len(ref) >= 2, counters={"paths": n})
 
 
+
+def run_step_sample(case):
+    """StepResult.sample / sample_measurement_ops: the recorded probability vector equals the Born marginal of
+    the current state, every PRNG path is consistent with it, and sampling never changes the state."""
+    prep_i, ci, sub, reps, via_ops = case
+    cfg = CONFIGS[ci]
+    pname, pops, pcl, pqt = _P[prep_i]
+    if cfg[0] == "cl" and not pcl:
+        return Res(skipped=True, nontrivial=False)
+    qs = [a, b, t] if pqt else [a, b]
+    circ = cirq.Circuit([cirq.Moment(o) for o in pops])
+    mq = [qs[i] for i in sub]
+    ref_all = interp.run(cirq.Circuit(list(pops) + [cirq.measure(*mq, key="z")]), qs)
+    ref = {}
+    for rec, (p_, _) in ref_all.items():
+        ref[rec[0][1]] = ref.get(rec[0][1], 0.0) + p_
+    got = {}
+    npaths = 0
+
+    def one(ch):
+        prng = ScriptedRandomState(ch)
+        prng.vector_mode = "dfs"
+        sim = make_sim(cfg, ScriptedRandomState(Chooser()))  # the simulator itself must not draw while preparing
+        last = None
+        for step in sim.simulate_moment_steps(circ, qubit_order=qs):
+            last = step
+        before = step_state(cfg, last, qs)
+        if via_ops:
+            out = last.sample_measurement_ops([cirq.measure(*mq, key="z")], repetitions=reps, seed=prng)["z"]
+        else:
+            out = last.sample(mq, repetitions=reps, seed=prng)
+        after = step_state(cfg, last, qs)
+        if not np.allclose(before, after, atol=1e-9):
+            raise AssertionError("sampling changed the simulator state")
+        out = np.asarray(out)
+        if out.shape != (reps, len(mq)):
+            raise AssertionError(f"sample shape {out.shape}, expected {(reps, len(mq))}")
+        return tuple(tuple(int(x) for x in row) for row in out)
+
+    from mc.choices import Chooser as _C  # noqa
+    for ch, rows in explore(one, max_paths=20000):
+        npaths += 1
+        got[rows] = got.get(rows, 0.0) + ch.weight
+    refm = {}
+    for combo in itertools.product(ref.items(), repeat=reps):
+        p_ = 1.0
+        for _, pi in combo:
+            p_ *= pi
+        refm[tuple(k for k, _ in combo)] = refm.get(tuple(k for k, _ in combo), 0.0) + p_
+    atol = 1e-8 if cfg[2] != "c64" else 5e-6
+    kr = {k for k, p_ in refm.items() if p_ > atol}
+    kg = {k for k, p_ in got.items() if p_ > atol}
+    if kr != kg:
+        return bad(f"step.sample: outcome supports differ (only reference {sorted(kr-kg)[:3]}, only implementation {sorted(kg-kr)[:3]}) "
+                   f"prep={pname} qubits={mq} config={cfg} via_ops={via_ops}", kind="step_sample", config=cfg[0])
+    for k in kr:
+        if abs(refm[k] - got[k]) > 10 * atol:
+            return bad(f"step.sample: P({k})={got[k]:.9f}, Born rule {refm[k]:.9f}; prep={pname} qubits={mq} config={cfg}", kind="step_sample", config=cfg[0])
+    return Res(ok=True, nontrivial=len(ref) >= 2, counters={"paths": npaths})
+
+
+def step_sample_cases():
+    out = []
+    for prep_i in range(len(_P)):
+        n = 3 if _P[prep_i][3] else 2
+        subs = [sub for k in range(1, n + 1) for sub in itertools.permutations(range(n), k)]
+        for ci in range(len(CONFIGS)):
+            if CONFIGS[ci][0] == "ss":
+                continue
+            for sub in subs:
+                for reps in (1, 2):
+                    for via_ops in (0, 1):
+                        if via_ops and any(i == 2 for i in sub) is False and False:
+                            continue
+                        out.append((prep_i, ci, sub, reps, via_ops))
+    return out
+
 def direct_cases():
     out = []
     shapes = [(2, 2), (2, 2, 2), (2, 3), (3, 2, 2)]
@@ -436,6 +513,7 @@ def stages(tier, seed):
     reset = lambda: _init(seed)
     return [
         CaseStage("direct_sample_measure", direct_cases(), run_direct, reset=reset),
+        CaseStage("step_sample_does_not_disturb", step_sample_cases(), run_step_sample, reset=reset),
         CaseStage("simulate_all_paths", cases, run_steps, reset=reset, describe=describe),
         CaseStage("run_repetitions_all_paths", run_cases, run_run, reset=reset, describe=describe),
     ]
